@@ -44,6 +44,20 @@ InvSameGrid ==
   LET c == Contract(UnitO, Input, N) IN
   Applied(UnitO, Input, Grid, N - 1, Grid, FALSE, FALSE) = AsRat(c)
 
+(* C42 on the design, 3 flavours: the transcribed flavor_reshape of a unit operator  *)
+(* with unimodular integer rotations commutes with applying (refuted when the input *)
+(* side is multiplied by inputpids instead of its inverse)                          *)
+T3 == <<<<1, 1, 0>>, <<0, 1, -1>>, <<2, 0, 1>>>>
+U3 == <<<<1, 2, 0>>, <<0, 1, 0>>, <<1, 0, -1>>>>
+U3inv == <<<<1, -2, 0>>, <<0, 1, 0>>, <<1, -2, -1>>>>
+F3 == <<<<1, -2>>, <<3, 1>>, <<-1, 2>>>>
+InvReshape ==
+  (j > 0 /\ a <= 3 /\ b <= 3) =>
+  LET O3 == Eager([a1 \in 1..3 |-> Eager([j1 \in 1..N |-> Eager([b1 \in 1..3 |-> Eager([k1 \in 1..N |->
+               IF a1 = a /\ j1 = j /\ b1 = b /\ k1 = k THEN 1 ELSE 0])])])])
+  IN /\ MatMul(U3, U3inv) = <<<<1, 0, 0>>, <<0, 1, 0>>, <<0, 0, 1>>>>
+     /\ C42_FlavorCommutesN(O3, FlavorReshapeN(O3, T3, U3, U3inv, 3, N), T3, U3, F3, 3, N)
+
 InvBases ==
   (j = 0 /\ a = 1) =>
   /\ \A r1, r2 \in 1..NF : r1 # r2 => EvolMatrix[r1] # EvolMatrix[r2] /\ UniMatrix[r1] # UniMatrix[r2]
